@@ -182,6 +182,41 @@ func (p *Proxy) Terminate(d time.Duration) bool {
 	}
 }
 
+// TerminateOrDump is Terminate, but a process that does not exit in time is sent SIGQUIT so that its
+// goroutine dump ends up in Stderr() (the replay material of a shutdown hang).
+func (p *Proxy) TerminateOrDump(d time.Duration) bool {
+	if p.Exited() {
+		return true
+	}
+	p.cmd.Process.Signal(syscall.SIGTERM)
+	select {
+	case <-p.exited:
+		return true
+	case <-time.After(d):
+		p.cmd.Process.Signal(syscall.SIGQUIT)
+		select {
+		case <-p.exited:
+		case <-time.After(3 * time.Second):
+			p.Kill()
+		}
+		return false
+	}
+}
+
+// MainStack extracts the stack of the main goroutine from a SIGQUIT dump.
+func (p *Proxy) MainStack() string {
+	s := p.Stderr()
+	i := strings.Index(s, "\ngoroutine 1 ")
+	if i < 0 {
+		return "(no dump) " + tail(s, 1500)
+	}
+	e := strings.Index(s[i:], "\n\n")
+	if e < 0 || e > 4000 {
+		e = min(4000, len(s)-i)
+	}
+	return s[i : i+e]
+}
+
 func (p *Proxy) Kill() {
 	if !p.Exited() {
 		p.cmd.Process.Kill()
